@@ -828,3 +828,55 @@ Proof.
         rewrite E20, E21, E22. reflexivity. }
       fold N. auto_derive; [exact I|]. rewrite ?Ropp_0, ?Rmult_0_l, sin_0, cos_0. field. lra.
 Qed.
+
+(** * Non-vacuity: the hypotheses are satisfiable, and concrete values show the senses *)
+
+Lemma ex_large_branch : 1*1 + 0*0 + 0*0 > 1/1000000.
+Proof. lra. Qed.
+
+Lemma ex_small_branch : 0 < (1/2000)*(1/2000) + 0*0 + 0*0 <= 1/1000000.
+Proof. lra. Qed.
+
+Lemma ex_threshold : (1/1000)*(1/1000) + 0*0 + 0*0 = 1/1000000.
+Proof. lra. Qed.
+
+Lemma ex_pitch : -90 < 30 < 90 /\ cos (30 * d2r) <> 0 /\ cos (100 * d2r) <> 0.
+Proof.
+  unfold d2r. split; [lra|]. split.
+  - assert (0 < cos (30 * (PI / 180))) by interval. lra.
+  - assert (cos (100 * (PI / 180)) < 0) by interval. lra.
+Qed.
+
+(** rotation by +90 deg about z (down) takes x (north) to y (east): right-handed sense *)
+Lemma ex_rotvec_sense :
+  mat_from_rotvec_m10 0 0 (PI/2) = 1 /\ mat_from_rotvec_m01 0 0 (PI/2) = -1 /\
+  mat_from_rotvec_m22 0 0 (PI/2) = 1.
+Proof.
+  assert (G : 0*0 + 0*0 + (PI/2)*(PI/2) > 1/1000000).
+  { assert (3 < PI) by interval. unfold Rgt. nra. }
+  destruct (rv_branch_large _ _ _ G) as (E00 & E01 & E02 & E10 & E11 & E12 & E20 & E21 & E22).
+  rewrite E10, E01, E22. unf_rv_p0.
+  replace (0*0 + 0*0 + PI/2*(PI/2)) with ((PI/2)*(PI/2)) by ring.
+  assert (HP : 0 < PI/2) by (pose proof PI_RGT_0; lra).
+  rewrite sqrt_square by lra. rewrite sin_PI2, cos_PI2.
+  repeat split; field; lra.
+Qed.
+
+(** heading 90: nose to east; pitch 90: nose up (down component -1); roll 90: right wing down *)
+Lemma ex_rph_senses :
+  mat_from_rph_m10 0 0 90 = 1 /\ mat_from_rph_m20 0 90 0 = -1 /\ mat_from_rph_m21 90 0 0 = 1.
+Proof.
+  unf_rph. replace (90 * (PI / 180)) with (PI / 2) by field.
+  rewrite Rmult_0_l, sin_PI2, cos_0. repeat split; ring.
+Qed.
+
+(** a round trip that needs the wrap: roll 350 comes back as -10, heading -200 as 160 *)
+Lemma ex_round_trip_wraps :
+  mat_to_rph_of_rph_roll 350 30 (-200) = -10 /\ mat_to_rph_of_rph_pitch 350 30 (-200) = 30 /\
+  mat_to_rph_of_rph_heading 350 30 (-200) = 160.
+Proof.
+  destruct (to_rph_periodic 350 30 (-200) (-1) 1) as (P1 & P2 & P3).
+  assert (Hp : -90 < 30 < 90) by lra.
+  destruct (rph_round_trip_exact (350 + 360 * IZR (-1)) 30 (-200 + 360 * IZR 1) Hp) as (R1 & R2 & R3).
+  rewrite <- P1, <- P2, <- P3. rewrite R1, R2, R3 by lra. repeat split; lra.
+Qed.
